@@ -94,11 +94,15 @@ S(fn, fs) == A(fn, fs \cup {"flags"}, "W", {Sp("g", "W"), L("pub", "R")} \cup TW
 GG(fn, f) == A(fn, {f}, "R", {L("t", "R"), Sp("g", "W"), L("pub", "R")})
 \* a getter called from a sort comparator / index scan: it runs over EVERY record of the index, under the index lock,
 \* not under the guards of those records
-GC(fn, f, lk) == A(fn, {f}, "R", {L("t", "R"), Sp("ib", lk), L("pub", "R")})
+\* (an index beacon that was cold-built from the escaped key map holds pointers that were never obtained under
+\* beaconKey's lock: whoever dereferences an element of such an index has no happens-before edge to its allocation)
+GC(fn, f, lk) == A(fn, {f}, "R", {L("t", "R"), Sp("ib", lk)} \cup Pub("ColdBuild" \notin Dev))
 \* the same inside a writer's Save: the writer still holds the guard of ITS record while the comparators run.  (With a
 \* single modelled record this makes writer x writer comparator reads look protected; the unprotected comparator reads
 \* are those of the read paths, which give the same code-site pairs.)
-GCW(fn, f) == A(fn, {f}, "R", {L("t", "R"), Sp("ib", "W"), Sp("g", "W"), L("pub", "R")})
+GCW(fn, f) == A(fn, {f}, "R", {L("t", "R"), Sp("ib", "W"), Sp("g", "W")} \cup Pub("ColdBuild" \notin Dev))
+\* beacon.Delete / the sort closures touch every element of the ordered slice (treasureObj.GetKey(), comparator calls)
+Elem(fn) == A(fn, {"alloc"}, "R", {Sp("ib", "W"), Sp("g", "W")} \cup Pub("ColdBuild" \notin Dev))
 
 Lookup == A("beacon.Get", {"keymap"}, "R", {L("bk", "R")})
 LookupG == A("beacon.Get", {"keymap"}, "R", {L("bk", "R"), Sp("g", "W")})
@@ -110,8 +114,8 @@ SetFields == << S("treasure.SetContentInt64", {"content"}), S("treasure.SetConte
 
 \* the index maintenance a Save does when the index is built: delete + add + re-sort (comparators read other records)
 IndexUpdate ==
-  << A("beacon.Delete", {"idx"}, "W", {Sp("ib", "W"), Sp("g", "W")}), GCW("treasure.GetKey", "key"),
-     A("beacon.Add", {"idx"}, "W", {Sp("ib", "W"), Sp("g", "W")}),
+  << A("beacon.Delete", {"idx"}, "W", {Sp("ib", "W"), Sp("g", "W")}), Elem("beacon.Delete"), GCW("treasure.GetKey", "key"),
+     A("beacon.Add", {"idx"}, "W", {Sp("ib", "W"), Sp("g", "W")}), Elem("beacon.SortBy"),
      GCW("treasure.GetKey", "key"), GCW("treasure.GetContentInt64", "content"), GCW("treasure.GetCreatedAt", "createdAt"),
      GCW("treasure.GetModifiedAt", "modifiedAt"), GCW("treasure.GetExpirationTime", "expiration"),
      A("beacon.SortBy", {"idx"}, "W", {Sp("ib", "W"), Sp("g", "W")}) >>
@@ -140,7 +144,7 @@ DeleteSteps ==
   \o (IF Persistent THEN << S("treasure.BodySetForDeletion", {"content", "deleted", "expiration"}), A("beacon.Add", {"wbuf"}, "W", {L("wb", "W"), Sp("g", "W")}) >>
                     ELSE << A("beacon.Delete", {"wbuf"}, "W", {L("wb", "W"), Sp("g", "W")}) >>)
   \o << A("beacon.Delete", {"keymap"}, "W", {L("bk", "W"), Sp("g", "W")}),
-        A("beacon.Delete", {"idx"}, "W", {Sp("ib", "W"), Sp("g", "W")}), GCW("treasure.GetKey", "key"),
+        A("beacon.Delete", {"idx"}, "W", {Sp("ib", "W"), Sp("g", "W")}), Elem("beacon.Delete"), GCW("treasure.GetKey", "key"),
         A("swamp.notifyBucketsDelete", {"bktreg"}, "R", {L("bsm", "R"), Sp("g", "W")}),
         A("bucket.OnDelete", {"bkt"}, "W", {L("bm", "W"), Sp("g", "W")}),
         A("beacon.Count", {"keymap"}, "R", {L("bk", "R")}) >>
@@ -148,7 +152,8 @@ DeleteSteps ==
 \* reading from a built index
 IndexRead(pub) ==
   << A("beacon.GetManyFromOrderPosition", {"idx"}, "R", {Sp("ib", "R")}), GC("treasure.GetCreatedAt", "createdAt", "R"),
-     GC("treasure.GetModifiedAt", "modifiedAt", "R"), GC("treasure.GetExpirationTime", "expiration", "R") >> \o Snapshot(pub)
+     GC("treasure.GetModifiedAt", "modifiedAt", "R"), GC("treasure.GetExpirationTime", "expiration", "R"),
+     A("gateway.GetByIndex", {"alloc"}, "R", Pub(pub)), A("gateway.GetByIndexStream", {"alloc"}, "R", Pub(pub)) >> \o Snapshot(pub)
 
 MapEsc == "MapEscape" \in Dev
 Cold == "ColdBuild" \in Dev
@@ -181,7 +186,7 @@ Path(n) ==
               A("beacon.SortBy", {"alloc"}, "R", {Sp("ib", "W")} \cup Pub(~Cold)),
               A("treasure.GetCreatedAt", {"createdAt"}, "R", {L("t", "R"), Sp("ib", "W")} \cup Pub(~Cold)),
               A("beacon.SortBy", {"idx"}, "W", {Sp("ib", "W")}) >> \o IndexRead(~Cold)
-    [] n = "idx_warm"  -> IndexRead(TRUE)
+    [] n = "idx_warm"  -> IndexRead(~Cold)
     \* first filtered read on a body field: GetOrBuildBucket snapshots the key map with CloneUnorderedTreasures
     \* (a copy made under beaconKey's WRITE lock and every treasure's guard) and builds the bucket from the copy
     [] n = "bucket_cold" ->
